@@ -9,7 +9,7 @@ ID = "C10"
 LEVEL = "exploration"
 RULE = (
     "one run = one seeded scene from the class the property names: animals on a lattice of pitch D >= 10 body "
-    "sizes, per-frame motion <= D/40 (bounded wobble + common drift), absences of at most window_size-2 frames, a "
+    "sizes, slow motion (wobble + drift <= 1 px/frame) or, for OKS / distance scoring, fast common motion of 12-24 px/frame without absences, absences of at most window_size-2 frames, optional empty leading frames, a "
     "newcomer only in a frame where every previously seen animal is detected, animals may leave for good, detection order permuted every "
     "frame, nodes 0/1 always visible; fed to the real Tracker under a seeded configuration. Oracle: the relation "
     "animal <-> track name over the whole history is an injective function. Non-trivial = >= 2 animals or an "
@@ -23,7 +23,7 @@ COMPONENTS = {
 ASSUMPTIONS = [
     "scenario class fixed from the statement, not tuned: separation 10x body size, absences <= window-2 frames, "
     "newcomers only while everyone seen so far is visible, all scores above the new-track threshold, body-diagonal nodes always visible",
-    "runs in which C09's conservation oracle already fails are left to C09 (not reported twice)",
+    "runs in which track() raises are left to C09; a detected in-class animal that comes back without a track is reported here too (identity_missing)",
 ]
 TIERS = {
     "quick": {"runs": 30000, "time_cap_s": 70, "chunk": 200, "det_inproc": 10, "det_fresh": 5, "minimise_s": 40},
@@ -46,6 +46,21 @@ def gen_plan(rng, index, tier):
     offs = [tw.shape_offsets(rng, n_nodes, size) for _ in range(K)]
     drift = (rng.uniform(-0.5, 0.5), rng.uniform(-0.5, 0.5)) if rng.random() < 0.5 else (0.0, 0.0)
     wob = rng.choice([0.0, 0.2, 0.5])
+    # fast common motion (a panning camera): every animal moves 12-24 px (> one body length) per frame while staying D apart.
+    # With OKS its similarity to its own last pose is tiny (exp(-d^2/1.28), ~1e-50..1e-200) but strictly positive in double
+    # precision while every other animal scores exactly 0, so the match is still unique; distances work at any speed. Boxes stop
+    # overlapping, so IoU configurations stay slow; absences would push the similarity to exactly 0, so fast scenes have none.
+    fast = cfg["scoring_method"] in ("oks", "euclidean_dist") and rng.random() < 0.25
+    if fast:
+        ang = rng.uniform(0, 6.283)
+        speed = rng.uniform(12.0, 24.0)
+        import math as _m
+        drift = (speed * _m.cos(ang), speed * _m.sin(ang))
+        # "far apart compared with how far they move": the whole window's worth of motion must stay well below the separation,
+        # otherwise a newcomer can legitimately sit where a neighbour was W frames ago
+        # (local queues never forget a departed animal's last poses, so nobody may ever pass where somebody else has been)
+        D = max(D, 1.25 * speed * (F + W))
+        homes = [(50 + D * c[0], 50 + D * c[1]) for c in cells[:K]]
     # arrival times: animal 0 from the start; later arrivals only in frames where all seen so far are present
     present = [[False] * K for _ in range(F)]
     arrive = [0] * K
@@ -54,8 +69,19 @@ def gen_plan(rng, index, tier):
     for t in range(F):
         for a in range(K):
             present[t][a] = t >= arrive[a]
-    max_gap = max(W - 2, 0)
+    max_gap = 0 if fast else max(W - 2, 0)
     fired = {}
+    if fast:
+        fired["fast_common_motion"] = 1
+    lead = rng.randint(1, 3) if (rng.random() < 0.15 and F > 5) else 0
+    if lead:
+        # nothing in view for the first frames: the first tracked frames create no track at all
+        arrive = [a_ + lead for a_ in arrive]
+        arrive = [min(a_, F - 2) for a_ in arrive]
+        for t in range(F):
+            for a in range(K):
+                present[t][a] = t >= arrive[a]
+        fired["empty_leading_frames"] = lead
     if max_gap > 0:
         for a in range(K):
             t = arrive[a] + 1
@@ -136,13 +162,14 @@ def in_class(plan):
 def shrink(plan):
     F = len(plan["frames"])
     cands = []
+    fast = "fast_common_motion" in plan.get("faults_fired", {})
     for cut in (F // 2, F - 1):
         if 2 <= cut < F:
             p = copy.deepcopy(plan)
             p["frames"] = p["frames"][:cut]
             cands.append(p)
     for i in range(F):
-        if F > 2:
+        if F > 2 and not fast:  # dropping a frame of a fast scene multiplies the per-frame motion: out of class
             p = copy.deepcopy(plan)
             del p["frames"][i]
             cands.append(p)
@@ -172,12 +199,19 @@ def execute(plan, choices=None):
     res = tw.run_history(plan, n_trackers=1)
     violations = []
     obs = res["obs"][0]
-    if not res["violations"] and in_class(plan):
+    c09_crash = any(v["kind"] == "crash" for v in res["violations"])
+    if not c09_crash and in_class(plan):
         a2t, t2a = {}, {}
         for t, row in enumerate(obs):
             for animal, tname in row:
                 if tname in (None, "<dropped>"):
-                    continue
+                    # every detection of the class scores above the threshold: a detected animal without a track has no identity to keep
+                    violations.append({
+                        "kind": "identity_missing",
+                        "sig": f"identity_missing:{plan['cfg']['candidates_method']}",
+                        "detail": f"animal {animal} is detected on frame {t} but comes back {'without a track' if tname is None else 'not at all'}; "
+                                  f"history={_hist(obs)}; cfg={plan['cfg']}"})
+                    break
                 if animal in a2t and a2t[animal] != tname:
                     violations.append({
                         "kind": "identity_switch",
@@ -215,6 +249,8 @@ def execute(plan, choices=None):
             "single_animal": int(K_seen == 1),
             "permuted_every_frame": int("permute_detections" in plan.get("faults_fired", {})),
             "animal_left_for_good": int("permanent_departure" in plan.get("faults_fired", {})),
+            "fast_common_motion": int("fast_common_motion" in plan.get("faults_fired", {})),
+            "empty_leading_frames": int("empty_leading_frames" in plan.get("faults_fired", {})),
         },
         "faults": plan.get("faults_fired", {}),
         "sim_us": len(frames) * 33333,
